@@ -20,6 +20,21 @@ void * g_aesni_free_arg;
 int cpusupport_x86_aesni_present_1;
 int cpusupport_x86_aesni_init_1;
 #define AESD_SW (hwaccel != HW_X86_AESNI)
+/* cpuid probe: trusted, any answer */
+int
+cpusupport_x86_aesni_detect_1(void)
+{
+	int r;
+
+	return (r);
+}
+/* warnx(3) front end of util/warnp.c: prints a diagnostic, no effect on the program state */
+void
+libcperciva_warnx(const char * fmt, ...)
+{
+
+	(void)fmt;
+}
 #else
 #define AESD_SW 1
 #endif
@@ -29,7 +44,12 @@ int cpusupport_x86_aesni_init_1;
 #define AES_FREE_KEY_OBJ(key) (!AESD_SW || PRE_OBJ(key, sizeof(AES_KEY)))
 #define AES_EXPANDED_SW(rv, ukey, len) (!AESD_SW || ( \
 	__CPROVER_is_fresh(rv, sizeof(AES_KEY)) && ((const AES_KEY *)(rv))->rounds == ((len) == 16 ? 10 : 14) && \
-	((B16_EQ(ukey, g_ks_key) && ((len) == 16 || B16_EQ((ukey) + 16, g_ks_key + 16)) && \
+	(AESD_OPAQUE_SCHEDULE || ((B16_EQ(ukey, g_ks_key) && ((len) == 16 || B16_EQ((ukey) + 16, g_ks_key + 16)) && \
 	  g_k < 16 * (size_t)((len) == 16 ? 11 : 15)) ==> \
-	 ((const uint8_t *)((const AES_KEY *)(rv))->rd_key)[g_k] == g_ks_w[g_k])))
+	 ((const uint8_t *)((const AES_KEY *)(rv))->rd_key)[g_k] == g_ks_w[g_k]))))
+#ifdef OPENSSL_AES_G3
+#define AESD_OPAQUE_SCHEDULE 1
+#else
+#define AESD_OPAQUE_SCHEDULE 0
+#endif
 #include "crypto/crypto_aes.c"
